@@ -35,6 +35,7 @@ func (q *QS) UnmarshalJSON(b []byte) error {
 type message struct {
 	Class string
 	Text  string
+	Emb   int // 1 + index of the kind whose text the message contains (0: none)
 }
 
 // message classes, ordered by "how special" (used to pick the one class that labels a whole case).
@@ -53,62 +54,62 @@ func classRank(c string) int {
 // binary and multi-line ones. Multi-line messages are a don't-care region for everything except
 // "the kind is still recognised".
 var fixedMessages = []message{
-	{"empty", ""},
-	{"plain", "something went wrong"},
-	{"plain", "x"},
-	{"plain", "operation failed after 3 attempts"},
-	{"colons", "a: b"},
-	{"colons", "a:b"},
-	{"colons", "a :b"},
-	{"colons", "a : b: c"},
-	{"colons", "trailing colon:"},
-	{"colons", ":leading colon"},
-	{"colons", ":"},
-	{"colons", "::"},
-	{"colons", "a::b"},
-	{"colons", ": "},
-	{"colons", "path C:\\dir\\file: denied"},
-	{"colons", "url http://host:8080/p?q=1: refused"},
-	{"whitespace", " leading"},
-	{"whitespace", "trailing "},
-	{"whitespace", "  both  "},
-	{"whitespace", "in  ner   spaces"},
-	{"whitespace", "\ttab\tseparated\t"},
-	{"whitespace", "a :  b  :c "},
-	{"whitespace", " "},
-	{"whitespace", "   \t "},
-	{"whitespace", "carriage return\r"},
-	{"percent", "100% done"},
-	{"percent", "%s %d %v %w %!"},
-	{"percent", "50%: half"},
-	{"unicode", "h\u00e9llo w\u00f6rld"},
-	{"unicode", "\u65e5\u672c\u8a9e: \u30a8\u30e9\u30fc"},
-	{"unicode", "\U0001F642 emoji: \u2713"},
-	{"unicode", "\u00a0nbsp around\u00a0"},
-	{"unicode", "\u0130stanbul \u01c5 \u1e9e"},
-	{"unicode", "\u0645\u0631\u062d\u0628\u0627 \u200f rtl"},
-	{"unicode", "em\u2003space :\u2003x"},
-	{"long", strings.Repeat("x", 10000)},
-	{"long", strings.Repeat("ab: ", 2500)},
-	{"long", strings.Repeat("word ", 4000) + "end"},
-	{"binary", "\x00nul byte"},
-	{"binary", "\xff\xfe invalid utf8"},
-	{"multiline", "line1\nline2"},
-	{"multiline", "line1\nline2: with colon"},
-	{"multiline", "trailing newline\n"},
-	{"multiline", "\nleading newline"},
-	{"multiline", "a\r\nb"},
-	{"multiline", "a\n\nb"},
+	{Class: "empty", Text: ""},
+	{Class: "plain", Text: "something went wrong"},
+	{Class: "plain", Text: "x"},
+	{Class: "plain", Text: "operation failed after 3 attempts"},
+	{Class: "colons", Text: "a: b"},
+	{Class: "colons", Text: "a:b"},
+	{Class: "colons", Text: "a :b"},
+	{Class: "colons", Text: "a : b: c"},
+	{Class: "colons", Text: "trailing colon:"},
+	{Class: "colons", Text: ":leading colon"},
+	{Class: "colons", Text: ":"},
+	{Class: "colons", Text: "::"},
+	{Class: "colons", Text: "a::b"},
+	{Class: "colons", Text: ": "},
+	{Class: "colons", Text: "path C:\\dir\\file: denied"},
+	{Class: "colons", Text: "url http://host:8080/p?q=1: refused"},
+	{Class: "whitespace", Text: " leading"},
+	{Class: "whitespace", Text: "trailing "},
+	{Class: "whitespace", Text: "  both  "},
+	{Class: "whitespace", Text: "in  ner   spaces"},
+	{Class: "whitespace", Text: "\ttab\tseparated\t"},
+	{Class: "whitespace", Text: "a :  b  :c "},
+	{Class: "whitespace", Text: " "},
+	{Class: "whitespace", Text: "   \t "},
+	{Class: "whitespace", Text: "carriage return\r"},
+	{Class: "percent", Text: "100% done"},
+	{Class: "percent", Text: "%s %d %v %w %!"},
+	{Class: "percent", Text: "50%: half"},
+	{Class: "unicode", Text: "h\u00e9llo w\u00f6rld"},
+	{Class: "unicode", Text: "\u65e5\u672c\u8a9e: \u30a8\u30e9\u30fc"},
+	{Class: "unicode", Text: "\U0001F642 emoji: \u2713"},
+	{Class: "unicode", Text: "\u00a0nbsp around\u00a0"},
+	{Class: "unicode", Text: "\u0130stanbul \u01c5 \u1e9e"},
+	{Class: "unicode", Text: "\u0645\u0631\u062d\u0628\u0627 \u200f rtl"},
+	{Class: "unicode", Text: "em\u2003space :\u2003x"},
+	{Class: "long", Text: strings.Repeat("x", 10000)},
+	{Class: "long", Text: strings.Repeat("ab: ", 2500)},
+	{Class: "long", Text: strings.Repeat("word ", 4000) + "end"},
+	{Class: "binary", Text: "\x00nul byte"},
+	{Class: "binary", Text: "\xff\xfe invalid utf8"},
+	{Class: "multiline", Text: "line1\nline2"},
+	{Class: "multiline", Text: "line1\nline2: with colon"},
+	{Class: "multiline", Text: "trailing newline\n"},
+	{Class: "multiline", Text: "\nleading newline"},
+	{Class: "multiline", Text: "a\r\nb"},
+	{Class: "multiline", Text: "a\n\nb"},
 }
 
 // embedMessages returns the messages that contain the text of kind k2.
 func embedMessages(k2 int) []message {
 	t := kindTable[k2].Err.Error()
 	return []message{
-		{"embed-kind", t},
-		{"embed-kind", t + ": detail"},
-		{"embed-kind", "prefix " + t + " suffix"},
-		{"embed-kind", strings.ToUpper(t)},
+		{"embed-kind", t, k2 + 1},
+		{"embed-kind", t + ": detail", k2 + 1},
+		{"embed-kind", "prefix " + t + " suffix", k2 + 1},
+		{"embed-kind", strings.ToUpper(t), k2 + 1},
 	}
 }
 
@@ -131,7 +132,7 @@ var repMessages = func() []message {
 	pick("percent", 3)
 	pick("unicode", 7)
 	pick("binary", 2)
-	out = append(out, message{"long", strings.Repeat("long ", 300) + ": end"})
+	out = append(out, message{Class: "long", Text: strings.Repeat("long ", 300) + ": end"})
 	pick("multiline", 2)
 	return out
 }()
@@ -178,13 +179,9 @@ func otherErr(o string) (error, int) {
 		// a foreign error that merely *says* "not found": it is not a common error
 		return errors.New("not found"), -1
 	case "ctx-canceled":
-		ctx, cancel := context.WithCancel(context.Background())
-		cancel()
-		return ctx.Err(), kCancelled
+		return realCanceled, kCancelled
 	case "ctx-deadline":
-		ctx, cancel := context.WithDeadline(context.Background(), longAgo)
-		defer cancel()
-		return ctx.Err(), kTimeout
+		return realDeadline, kTimeout
 	case "wrapped-ctx-canceled":
 		return fmt.Errorf("operation aborted: %w", context.Canceled), kCancelled
 	case "wrapped-ctx-deadline":
@@ -194,6 +191,15 @@ func otherErr(o string) (error, int) {
 	}
 	panic("unknown other " + o)
 }
+
+// the errors of really cancelled / expired contexts
+var realCanceled, realDeadline = func() (error, error) {
+	c1, cancel1 := context.WithCancel(context.Background())
+	cancel1()
+	c2, cancel2 := context.WithDeadline(context.Background(), longAgo)
+	defer cancel2()
+	return c1.Err(), c2.Err()
+}()
 
 func fmtArgs(msg string, f int) (string, []any) {
 	switch f {
